@@ -14,6 +14,7 @@ func init() {
 	register("C09", propInfo{
 		Explanation: "Durations are not decided. Decided are the structural conditions without which no bound exists: every blocking transport operation executes inside an armed timeout window (so timeoutLoop closes the transport when the armed context ends); the contexts on the close path are bounded by constants (5 s + 5 s, 15 s join); every blocking select / channel operation has an escape on closed, a timer or a context; CloseRead's context is cancelled by the goroutine that closes; that goroutine never waits for itself.",
 		Decides: []string{
+			"C09.mu: the channel lock itself (C06.recheck = C05.recheck = C07.mu = C09.mu): mu.lock returns nil only holding the lock and after re-polling closed, returns an error only without it, and never releases a lock this call did not acquire; forceLock is one blocking send, unlock at most one receive, tryLock true exactly when its non-blocking send was taken, and nothing else",
 			"C09.armed: every read of frame bytes and every write/flush to the transport lies in Conn.readFrameHeader / readFramePayload / writeFrame after a taken send of the call's context on readTimeout / writeTimeout and before the re-arm",
 			"C09.sites: no transport read or write site exists outside those functions (and the package-level readFrameHeader / writeFrameHeader / writeFramePayload they call inside the window)",
 			"C09.ctx: writeClose and waitCloseHandshake use context.WithTimeout(context.Background(), 5s); handleControl / writeControl derive ≤5 s children; waitGoroutines uses a 15 s timer; waitCloseHandshake passes its bounded context to every read it performs",
@@ -40,6 +41,7 @@ func init() {
 	register("C20", propInfo{
 		Explanation: "Decided: the inventory of goroutines and timers the library starts is the frozen list; each spawned body closes its done channel in its first-registered defer; each body's loop/blocking operations escape on closed; Close and CloseNow pass waitGoroutines on every return path, which receives from both done channels; no goroutine waits for its own done channel.",
 		Decides: []string{
+			"C20.noreacquire (= C05.noreacquire): no goroutine of the library waits for a lock its own call stack holds",
 			"C20.inventory: go statements and time.AfterFunc calls are exactly: newConn→timeoutLoop, CloseRead→closure, NetConn→2 timers (stopped in netConn.Close), dial→3 s timer (Stop deferred); xsync.Go has no library caller",
 			"C20.done: timeoutLoop and the CloseRead closure register close(doneChannel) as their first defer",
 			"C20.exit: timeoutLoop returns on closed and after either Done; the CloseRead body calls Reader (escapes on closed) and has c.close() deferred",
@@ -1216,4 +1218,65 @@ func c10readside(p *Program, r *Report, rule string) {
 			}
 			return true, ""
 		})
+	// every caller hands in the context of the read it is failing: its own context parameter, the context stored for the
+	// message being read, or a child of one of them - never a fresh root
+	n := 0
+	for _, cs := range p.CallSites() {
+		if cs.Name != "Conn.writeError" {
+			continue
+		}
+		args := cs.Instr.Common().Args
+		if len(args) != 4 {
+			continue
+		}
+		n++
+		ok, why := readContext(args[1], 0)
+		r.Check(rule+".sites", p.FuncName(cs.Fn), "context handed to writeError", p.InstrPos(cs.Instr), ok,
+			"the context passed to writeError is the caller's context parameter, the context field of the message reader, or a child of one of them", why)
+	}
+	if n < 8 {
+		r.Undecide("%s: only %d writeError call sites with a context found (expected at least 8)", rule, n)
+	}
+}
+
+// readContext: v is a context that belongs to the read in progress (not context.Background()/TODO()).
+func readContext(v ssa.Value, depth int) (bool, string) {
+	if depth > 6 {
+		return false, "context provenance too deep"
+	}
+	switch x := v.(type) {
+	case *ssa.Parameter:
+		return true, "parameter " + x.Name()
+	case *ssa.FreeVar:
+		return true, "captured " + x.Name()
+	case *ssa.UnOp:
+		if fa, ok := x.X.(*ssa.FieldAddr); ok {
+			if f := fieldOf(fa); f != nil && strings.HasSuffix(f.Type().String(), "context.Context") {
+				return true, "field " + f.Name()
+			}
+		}
+		return false, "context loaded from " + x.X.String()
+	case *ssa.Extract:
+		if c, ok := x.Tuple.(*ssa.Call); ok {
+			if f := c.Call.StaticCallee(); f != nil && f.Pkg != nil && f.Pkg.Pkg.Path() == "context" && strings.HasPrefix(f.Name(), "With") && len(c.Call.Args) > 0 {
+				return readContext(c.Call.Args[0], depth+1)
+			}
+		}
+	case *ssa.Phi:
+		for _, e := range x.Edges {
+			if ok, why := readContext(e, depth+1); !ok {
+				return false, why
+			}
+		}
+		return true, "phi"
+	case *ssa.Call:
+		if f := x.Call.StaticCallee(); f != nil && f.Pkg != nil && f.Pkg.Pkg.Path() == "context" {
+			return false, "a fresh root context (context." + f.Name() + ")"
+		}
+	case *ssa.ChangeInterface:
+		return readContext(x.X, depth+1)
+	case *ssa.MakeInterface:
+		return readContext(x.X, depth+1)
+	}
+	return false, "context of unknown provenance: " + v.String()
 }
